@@ -1,1 +1,6 @@
 //! Verification hooks: `path_state` (thin pass-through wrappers; feature `verif-hooks` only).
+//!
+//! Path set of a remote: the real `prune_non_relay_paths` and `RemotePathState` (C22, C23).
+//! The wrappers themselves live next to the private items they forward to
+//! (`socket/remote_map/remote_state/path_state.rs`, module `verif`).
+pub use crate::socket::remote_map::verif_path_state::*;
